@@ -137,6 +137,9 @@ def main():
         import importlib
         return importlib.import_module(spec["custom_module"]).run(prop, tier, seed, jobs)
     exe = build.build_engine_fi() if spec.get("fi") else build.build_engine()
+    if prop == "C17" and build.uninterposed():
+        print("INCONCLUSIVE property=C17: the library calls %s, which the fault layer neither interposes nor knows to be pure (driver/build.py)" % ", ".join(build.uninterposed()))
+        return 2
     if spec.get("needs_asmline"):
         build.build_asmline()
     outdir = os.path.join(ROOT, "build", "run", prop)
